@@ -15,7 +15,7 @@ from pathlib import Path
 
 import front
 
-LEAN_MODULE = "PydjinniModel.Props.C05"
+LEAN_MODULE = "PydjinniModel.Props.C05All"
 THEOREMS = [
     "Pydjinni.Front.mem_checkFields_iff",
     "Pydjinni.Front.mem_checkParams_iff",
@@ -32,6 +32,7 @@ THEOREMS = [
     "Pydjinni.Front.mem_targetDiags_iff",
     "Pydjinni.Front.refs_walkT_complete",
     "Pydjinni.Front.refs_walkF",
+    "Pydjinni.Front.finishFile_spec",
 ]
 LEVEL = "proof"
 
